@@ -82,7 +82,7 @@ func ZZ_C07_calls() {
 	e := zzOrderEnv()
 	ci := zz.Choose(len(zzCallees))
 	callee := zzCallees[ci]
-	n := zz.Choose(5)
+	n := zz.Choose(7) // 0..6 operands: the reflect path of script functions starts at 5 parameters
 	j := zz.Choose(n+1) - 1
 	spread := n > 0 && zz.Choose(2) == 1
 	ops := zzOperands(n, j)
